@@ -3,6 +3,8 @@
 
   tools/seeded.py demo  ID            # demo.py on a scratch copy of /repo with and without the change
   tools/seeded.py trial ID C04 C13    # run checks against the scratch copy with the change applied
+  tools/seeded.py one <id>            # demo + the checks of meta.json "caught_by"
+  tools/seeded.py matrix [N]          # 'one' for every id, N at a time; the summary line ends the output
   tools/seeded.py all                 # demo + trial (checks from meta.json "caught_by"/"trial_checks") for every id
 
 The patch used is patch_rebased.diff when it exists (the change expressed against the current tree,
@@ -77,6 +79,35 @@ def main():
     if a[0] == "trial":
         trial(a[1], a[2:])
         return 0
+    if a[0] == "one":
+        # demo + the checks that are expected to catch the change (meta.json "caught_by"); one line per result
+        sid = a[1]
+        meta = json.load(open(os.path.join(HERE, "seeded", sid, "meta.json")))
+        if meta.get("status") == "subsumed":
+            print(f"SUBSUMED seeded={sid} (kept for the record, see meta.json)")
+            return 0
+        ok = demo(sid)
+        res = trial(sid, meta.get("caught_by") or [meta["breaks"]])
+        return 0 if ok and all(v == "KILLED" for v in res.values()) else 1
+    if a[0] == "matrix":
+        # every seeded change against the checks expected to catch it, N changes at a time
+        from concurrent.futures import ThreadPoolExecutor
+
+        jobs = int(a[1]) if len(a) > 1 else 3
+        sids = sorted(d for d in os.listdir(os.path.join(HERE, "seeded")) if os.path.exists(os.path.join(HERE, "seeded", d, "meta.json")))
+
+        def run(sid):
+            p = subprocess.run([sys.executable, os.path.abspath(__file__), "one", sid], capture_output=True, text=True)
+            return sid, p.returncode, p.stdout
+
+        bad = 0
+        with ThreadPoolExecutor(jobs) as ex:
+            for sid, rc, out in ex.map(run, sids):
+                sys.stdout.write(out)
+                sys.stdout.flush()
+                bad += 1 if rc else 0
+        print(f"MATRIX {len(sids)} seeded changes, {bad} not confirmed-and-killed")
+        return 1 if bad else 0
     if a[0] == "all":
         bad = 0
         for sid in sorted(os.listdir(os.path.join(HERE, "seeded"))):
